@@ -373,9 +373,15 @@ def nasty():
 SIG = {'SIGMA28': list(dict.fromkeys(SIGMA28)), 'SIGMA12': list(dict.fromkeys(SIGMA12))}
 
 
+def emphasis_strings():
+    """Delimiter-run stress: ALPHA({*, a}, 10) ∪ ALPHA({*, _, a, space}, 7)."""
+    return [''.join(t) for k in range(11) for t in itertools.product('*a', repeat=k)] + \
+           [''.join(t) for k in range(8) for t in itertools.product('*_a ', repeat=k)]
+
+
 def fixed_inputs():
     out, seen = [], set()
-    for x in nasty() + [e['markdown'] for e in spec_examples()]:
+    for x in nasty() + [e['markdown'] for e in spec_examples()] + emphasis_strings():
         if x not in seen:
             seen.add(x)
             out.append(x)
@@ -477,7 +483,7 @@ def run(tier, seed, workers):
     fails = out['failures']
     n28, n12, extra = bounds(tier)
     out.update({
-        'domain': '%d handcrafted ∪ 652 spec examples ∪ ALPHA(SIGMA28 [27 distinct characters],%d) ∪ ALPHA(SIGMA12,%d)%s (%d distinct inputs) as str; '
+        'domain': '%d handcrafted ∪ 652 spec examples ∪ ALPHA({*,a},10) ∪ ALPHA({*,_,a,space},7) ∪ ALPHA(SIGMA28 [27 distinct characters],%d) ∪ ALPHA(SIGMA12,%d)%s (%d distinct inputs) as str; '
                   'those with enumeration rank %% 10 == %d also as list of lines and io.StringIO (11 default-option '
                   'renderers); x %d configurations of the 11 bundled renderers (Html x 4 quote-escaping combos, '
                   'Html(process_html_tokens=False), Markdown x normalize_whitespace x max_line_length {None,1,2,3,10,40}, '
